@@ -76,9 +76,9 @@ func C13(c *core.Ctx) {
 	c.Assumption("verdicts come only from monitors on the real visitor callbacks and the real return value; a trace the specification rejects without a monitor failing is reported as DRIFT")
 
 	// ---- 1. design-level model checking
-	mcCfg := "SPECIFICATION Spec\nCONSTANTS MinN = 1\n MaxN = 3\n Limits = {0,1}\n MaxFail = 1\n RootSets = 1\nINVARIANTS OnceEach DepsFirst BoundNoErr ReturnAfterAll ResultOK RootsClosure ChanBounded \nCHECK_DEADLOCK TRUE\n"
+	mcCfg := "SPECIFICATION Spec\nCONSTANTS MinN = 1\n MaxN = 3\n Limits = {0,1}\n MaxFail = 1\n RootSets = 1\nINVARIANTS OnceEach DepsFirst BoundAlways ReturnAfterAll ResultOK RootsClosure ChanBounded \nCHECK_DEADLOCK TRUE\n"
 	if !c.Quick() {
-		mcCfg = "SPECIFICATION Spec\nCONSTANTS MinN = 1\n MaxN = 3\n Limits = {0,1,2}\n MaxFail = 2\n RootSets = 2\nINVARIANTS OnceEach DepsFirst BoundNoErr ReturnAfterAll ResultOK RootsClosure ChanBounded\nPROPERTY Live\nCHECK_DEADLOCK TRUE\n"
+		mcCfg = "SPECIFICATION Spec\nCONSTANTS MinN = 1\n MaxN = 3\n Limits = {0,1,2}\n MaxFail = 2\n RootSets = 2\nINVARIANTS OnceEach DepsFirst BoundAlways ReturnAfterAll ResultOK RootsClosure ChanBounded\nPROPERTY Live\nCHECK_DEADLOCK TRUE\n"
 	}
 	r, err := c.RunTLC(core.TLCOpts{Module: "MC_Traversal", CfgText: mcCfg, Workers: 8, Timeout: 40 * time.Minute, Name: "mc"})
 	if err != nil {
@@ -95,7 +95,7 @@ func C13(c *core.Ctx) {
 	c.Logf("model check: %d distinct states, %.0fs", r.Distinct, r.Wall.Seconds())
 	if !c.Quick() {
 		// N = 4 without failures/roots, and liveness for N <= 3 above
-		cfg4 := "SPECIFICATION Spec\nCONSTANTS MinN = 4\n MaxN = 4\n Limits = {0,2}\n MaxFail = 0\n RootSets = 0\nINVARIANTS OnceEach DepsFirst BoundNoErr ReturnAfterAll ResultOK ChanBounded \nCHECK_DEADLOCK TRUE\n"
+		cfg4 := "SPECIFICATION Spec\nCONSTANTS MinN = 4\n MaxN = 4\n Limits = {0,2}\n MaxFail = 0\n RootSets = 0\nINVARIANTS OnceEach DepsFirst BoundAlways ReturnAfterAll ResultOK ChanBounded \nCHECK_DEADLOCK TRUE\n"
 		r4, err := c.RunTLC(core.TLCOpts{Module: "MC_Traversal", CfgText: cfg4, Timeout: 60 * time.Minute, Name: "mc4"})
 		if err != nil {
 			c.Inconclusive("model checking N=4 failed: " + err.Error())
